@@ -197,6 +197,25 @@ def run(ck):
         trees.append(t)
         ck.count('fitted trees in the pool')
 
+    # a tree that never split, queried with a positive temperature: the mixture over one leaf is that leaf (all weight, nothing truncated)
+    for i in range(2):
+        n = 40
+        X = xr.make_X('random', n, d, rng); y = xr.make_y(['reg', 'class'][i], X, rng)
+        Xv = xr.make_X('random', 15, d, rng); yv = xr.make_y(['reg', 'class'][i], Xv, rng)
+        xr.seed_all(950 + i)
+        fm = xr.xRFM(rfm_params=xr.default_rfm_params(iters=1, reg=1e-2), max_leaf_size=1000, verbose=False, use_temperature_tuning=False,
+                     split_temperature=0.7, keep_weight_frac_in_predict=[0.99, 0.3][i], max_leaf_count_in_ensemble=[12, 1][i])
+        with xr.quiet():
+            fm.fit(torch.tensor(X), torch.tensor(y), torch.tensor(Xv), torch.tensor(yv))
+            Qs = torch.tensor(xr.make_X('random', 6, d, rng))
+            leaf = fm.trees[0]['model']
+            got = np.asarray(fm.predict_proba(Qs) if i else fm.predict(Qs), dtype=np.float64).reshape(6, -1)
+            want = np.asarray(leaf.predict_proba(Qs) if i else leaf.predict(Qs), dtype=np.float64).reshape(6, -1)
+        ck.case(dict(kind='single-leaf-soft', task=i), nontrivial=False); ck.count('single-leaf tree with a positive temperature')
+        if fm.trees[0]['type'] != 'leaf' or np.max(np.abs(got - want)) > 1e-6:
+            ck.violation(f'single-leaf tree queried with split_temperature=0.7 returns {got[0].tolist()}, its only leaf predicts {want[0].tolist()}',
+                         dict(task=i, got=got.tolist(), want=want.tolist()), key=json.dumps(dict(site='single-leaf-soft')))
+
     # ---------------- (b)-(f) weights, truncation, aggregation ----------------
     pick = list(range(len(trees)))
     rng.shuffle(pick)
